@@ -389,7 +389,7 @@ impl Gen {
             // a day per step: every settlement is due again
             Some("funding") => return Some((1, 86_400)),
             // one trading block after the other, now and then two trades in one block
-            Some("blocks") => return if rng.chance(1, 12) { None } else { Some((1, *rng.pick(&[1u64, 5, 15, 60]))) },
+            Some("blocks") => return if rng.chance(1, 4) { None } else { Some((1, *rng.pick(&[1u64, 5, 15, 60]))) },
             // one block per step, a second or a fraction of a second apart
             Some("seconds") => return Some((1, *rng.pick(&[0u64, 1, 1]))),
             _ => {}
@@ -1250,6 +1250,16 @@ impl Gen {
                 return Step::new("stranger", Op::SwapInput { vamm: v, dir: Dir::Add, quote: d, limit: 0, can_go_over: false });
             }
             _ => {}
+        }
+        if self.profile.marathon == Some("blocks") && vo.fluct > 0 && vo.fluct < d && vo.q < 10u128.pow(30) && vo.b < 10u128.pow(30) && vo.q > d && vo.b > d && rng.chance(1, 2) {
+            // walk the price by about two thirds of the band width per trade, several trades in the same direction: each
+            // stays inside a band taken around the latest price, two of them leave the band around the previous block's
+            // (back towards the starting price once it has drifted far, so that the reserves stay in range)
+            let p0 = r.model.prices[v].first().map(|x| x.price).unwrap_or(vo.spot).max(1);
+            let up = if vo.spot > p0.saturating_mul(4) { false } else if vo.spot < p0 / 4 { true } else { (r.steps_done / 3) % 2 == 0 };
+            let x = vo.fluct / 3 * 2;
+            let amt = if up { quote_for_price_up(vo.q, x, d) } else { quote_for_price_down(vo.q, x, d) }.unwrap_or(1).max(1);
+            return Step::new(crate::world::DRIVER, Op::SwapInput { vamm: v, dir: if up { Dir::Add } else { Dir::Remove }, quote: amt, limit: 0, can_go_over: false });
         }
         let dir = if rng.chance(1, 2) { Dir::Add } else { Dir::Remove };
         let input = rng.chance(1, 2);
